@@ -66,6 +66,8 @@ __CPROVER_assigns(g_w[0].pos, g_w[1].pos, g_list_own_seen, g_list_next)
 __CPROVER_ensures(__CPROVER_return_value >= 1 && __CPROVER_return_value <= g_idx_bound)
 ENS_NEXTIDX((g_w[0].exists && g_w[0].jd == date.jd) ==> __CPROVER_return_value > g_w[0].idx)
 ENS_NEXTIDX((g_w[1].exists && g_w[1].jd == date.jd) ==> __CPROVER_return_value > g_w[1].idx);
+#if defined(LOOPKIND_RotatingFileSink_RotatingFileSinkPrivate_findNextIndexForDate_0_range_for) && defined(HASVAR_RotatingFileSink_RotatingFileSinkPrivate_findNextIndexForDate_maxIndex) \
+    && defined(HASVAR_RotatingFileSink_RotatingFileSinkPrivate_findNextIndexForDate_entries) && defined(HASVAR_RotatingFileSink_RotatingFileSinkPrivate_findNextIndexForDate_re)
 #define LOOP_RotatingFileSink_RotatingFileSinkPrivate_findNextIndexForDate_0 \
   __CPROVER_assigns(__begin2.i, maxIndex, g_list_own_seen, g_list_next) \
   __CPROVER_loop_invariant(__begin2.l == &entries._base && __end2.l == &entries._base && __end2.i == entries._base.n && 0 <= __begin2.i && __begin2.i <= __end2.i && entries._base.lo == 0) \
@@ -73,6 +75,7 @@ ENS_NEXTIDX((g_w[1].exists && g_w[1].jd == date.jd) ==> __CPROVER_return_value >
   __CPROVER_loop_invariant((entries._base.kind == L_ENTRIES && re.kind == RE_IDX && re.jd == date.jd && g_w[0].exists && g_w[0].jd == date.jd && g_w[0].pos < __begin2.i) ==> maxIndex >= g_w[0].idx) \
   __CPROVER_loop_invariant((entries._base.kind == L_ENTRIES && re.kind == RE_IDX && re.jd == date.jd && g_w[1].exists && g_w[1].jd == date.jd && g_w[1].pos < __begin2.i) ==> maxIndex >= g_w[1].idx) \
   __CPROVER_decreases(__end2.i - __begin2.i)
+#endif
 
 /* ---- findRotatedFiles: exactly the existing own rotated files, ordered by the comparator ---- */
 QStringList RotatingFileSink_RotatingFileSinkPrivate_findRotatedFiles(Priv *self)
@@ -81,6 +84,8 @@ __CPROVER_assigns(g_w[0].pos, g_w[1].pos, g_list_own_seen, g_list_next)
 __CPROVER_ensures(__CPROVER_return_value._base.kind == L_ROTLIST && __CPROVER_return_value._base.lo == 0 && IS_BOOL(__CPROVER_return_value._base.sorted))
 __CPROVER_ensures(__CPROVER_return_value._base.n == g_R_count)           /* every own rotated file, nothing else */
 ENS_C06(__CPROVER_return_value._base.sorted == 1);                        /* oldest first (needs comparator_total)  */
+#if defined(LOOPKIND_RotatingFileSink_RotatingFileSinkPrivate_findRotatedFiles_0_range_for) && defined(HASVAR_RotatingFileSink_RotatingFileSinkPrivate_findRotatedFiles_result) \
+    && defined(HASVAR_RotatingFileSink_RotatingFileSinkPrivate_findRotatedFiles_entries)
 #define LOOP_RotatingFileSink_RotatingFileSinkPrivate_findRotatedFiles_0 \
   __CPROVER_assigns(__begin2.i, result._base.n, result._base.own, result._base.kind, g_list_own_seen, g_list_next) \
   __CPROVER_loop_invariant(__begin2.l == &entries._base && __end2.l == &entries._base && __end2.i == entries._base.n && 0 <= __begin2.i && __begin2.i <= __end2.i && entries._base.lo == 0) \
@@ -88,6 +93,7 @@ ENS_C06(__CPROVER_return_value._base.sorted == 1);                        /* old
   __CPROVER_loop_invariant(result._base.kind == L_BUILD && result._base.lo == 0 && result._base.n == g_list_own_seen && result._base.own == g_list_own_seen) \
   __CPROVER_loop_invariant(0 <= g_list_own_seen && g_list_own_seen <= __begin2.i && g_list_own_seen <= entries._base.own && entries._base.n - __begin2.i >= entries._base.own - g_list_own_seen) \
   __CPROVER_decreases(__end2.i - __begin2.i)
+#endif
 
 /* ---- removeOldFiles: retention ---- */
 void RotatingFileSink_RotatingFileSinkPrivate_removeOldFiles(Priv *self)
@@ -104,12 +110,14 @@ __CPROVER_ensures(LEDGER_RANGE2() && g_gz_exists == 0)
 ENS_C05(g_lost == __CPROVER_old(g_lost))
 ENS_C10(g_lost == __CPROVER_old(g_lost))
 ;
+#if defined(LOOPKIND_RotatingFileSink_RotatingFileSinkPrivate_removeOldFiles_0_while) && defined(HASVAR_RotatingFileSink_RotatingFileSinkPrivate_removeOldFiles_rotatedFiles)
 #define LOOP_RotatingFileSink_RotatingFileSinkPrivate_removeOldFiles_0 \
   __CPROVER_assigns(g_w, g_R_count, g_removes, g_lost, g_foreign_touched, g_new, g_gz_exists, g_first_cell, rotatedFiles._base.lo) \
   __CPROVER_loop_invariant(LEDGER_OK() && LEDGER_RANGE2() && g_gz_exists == 0 && rotatedFiles._base.kind == L_ROTLIST && IS_BOOL(rotatedFiles._base.sorted) && 0 <= rotatedFiles._base.lo && rotatedFiles._base.lo <= rotatedFiles._base.n) \
   __CPROVER_loop_invariant(REMOVE_LOOP_COUNT) \
   __CPROVER_loop_invariant(g_lost == __CPROVER_loop_entry(g_lost) && g_foreign_touched == __CPROVER_loop_entry(g_foreign_touched) && g_removes - __CPROVER_loop_entry(g_removes) == (unsigned long long)rotatedFiles._base.lo) \
   __CPROVER_decreases(rotatedFiles._base.n - rotatedFiles._base.lo)
+#endif
 #ifdef FS_FAILURES
 #define REMOVE_LOOP_COUNT (rotatedFiles._base.n - rotatedFiles._base.lo <= g_R_count)
 #else
